@@ -51,11 +51,11 @@ def check_c09(ctx):
 
 def catalog_design(ctx):
     """Design level (spec/Catalog): identity, schema and index attachment across graceful and crash-style restarts."""
-    vlib.model_check(ctx, "Catalog", "Catalog", "MC_fixed.cfg", workers=8)        # both repairs: all invariants hold
-    vlib.model_check(ctx, "Catalog", "Catalog", "MC_coded_skip.cfg", workers=8)   # the tree as it is, without B-tree indexes
+    vlib.model_check(ctx, "Catalog", "Catalog", "MC_fixed.cfg", workers=8)        # the tree as repaired: all invariants hold
+    vlib.model_check(ctx, "Catalog", "Catalog", "MC_coded_skip.cfg", workers=8)   # pinned header-page handling, but no B-tree indexes
     r = vlib.tlc(ctx, "Catalog", "Catalog", "MC_coded.cfg", workers=4, name="Catalog-as-coded")
     if r["rc"] == 0 or not ("RestartsSucceed" in r["out"] or "IndexFresh" in r["out"]):
-        raise Inconclusive("the as-coded Catalog model no longer exhibits KF-C10-btree-reattach-after-crash: model and known_findings.json disagree")
+        raise Inconclusive("the Catalog model with the pinned tree's header-page handling (FixHdr = FALSE) no longer fails: the model lost its sensitivity")
     r = vlib.tlc(ctx, "Catalog", "Catalog", "MC_oid.cfg", workers=4, name="Catalog-oid-defect")
     if r["rc"] == 0 or "Identity" not in r["out"]:
         raise Inconclusive("the Catalog model with the pinned tree's nextTableID reload no longer fails: the model lost its sensitivity")
